@@ -292,3 +292,92 @@ func runD3(c *core.Ctx) {
 		}
 	}
 }
+
+// D4: Node.StringRef slices the JSON text with the node's stored length, which is the length
+// of the raw text only for strings without escapes (KStringCommon). For KStringEscaped nodes the
+// stored length is the unescaped one, and the text lives in the padded buffer
+// (StringCopyEsc / AsStrRef handle that). Every call must therefore sit under a test that the
+// node is a common string.
+
+func init() {
+	register(&core.Rule{ID: "D4", Min: 5,
+		Doc: "Precondition of optdec.Node.StringRef: every call lies inside a `case KStringCommon:` clause of a switch over the same node's Type(), or inside the then-branch of `X.Type() == KStringCommon`; anywhere else an escaped string (key or value) is sliced with its unescaped length from the raw text (`\\\"na\\\\u006de\\\"` becomes `na\\\\u`).",
+		Run: runD4})
+}
+
+func runD4(c *core.Ctx) {
+	p := c.Prog
+	pk := p.Pkg("internal/decoder/optdec")
+	if pk == nil {
+		c.Undecided("optdec", token.NoPos, "package not loaded")
+		return
+	}
+	n := 0
+	for _, fd := range core.FuncDecls(pk) {
+		if fd.Body == nil || strings.HasSuffix(p.Fset.Position(fd.Pos()).Filename, "_test.go") || fd.Name.Name == "StringRef" {
+			continue
+		}
+		fn := core.FuncName(pk, fd)
+		parents := map[ast.Node]ast.Node{}
+		var stack []ast.Node
+		ast.Inspect(fd.Body, func(nd ast.Node) bool {
+			if nd == nil {
+				stack = stack[:len(stack)-1]
+				return true
+			}
+			if len(stack) > 0 {
+				parents[nd] = stack[len(stack)-1]
+			}
+			stack = append(stack, nd)
+			return true
+		})
+		k := 0
+		ast.Inspect(fd.Body, func(nd ast.Node) bool {
+			call, ok := nd.(*ast.CallExpr)
+			if !ok {
+				return true
+			}
+			se, ok := call.Fun.(*ast.SelectorExpr)
+			if !ok || se.Sel.Name != "StringRef" {
+				return true
+			}
+			if o := p.Callee(call); o == nil || o.Pkg() == nil || core.Rel(o.Pkg().Path()) != "internal/decoder/optdec" {
+				return true
+			}
+			n++
+			k++
+			cn := fn + "/StringRef#" + itoa(k)
+			c.Analysed(fn)
+			guarded := false
+			for cur := ast.Node(call); cur != nil && !guarded; cur = parents[cur] {
+				switch x := parents[cur].(type) {
+				case *ast.CaseClause:
+					for _, e := range x.List {
+						if exprStr(e) == "KStringCommon" {
+							// the switch tag is a Type() call
+							if sw, ok := parents[parents[x]].(*ast.SwitchStmt); ok && sw.Tag != nil && strings.HasSuffix(exprStr(sw.Tag), ".Type()") {
+								guarded = true
+							}
+						}
+					}
+				case *ast.IfStmt:
+					if cur == ast.Node(x.Body) {
+						cs := exprStr(x.Cond)
+						if strings.Contains(cs, ".Type() == KStringCommon") {
+							guarded = true
+						}
+					}
+				}
+			}
+			if guarded {
+				c.OK(cn, call.Pos(), "under a KStringCommon test")
+			} else {
+				c.Bad(cn, call.Pos(), "%s calls StringRef on a node that has not been tested to be KStringCommon: for an escaped string the stored length is the unescaped one and the raw text is sliced short (escaped keys no longer match their field, values are truncated)", fn)
+			}
+			return true
+		})
+	}
+	if n < 5 {
+		c.Undecided("optdec/StringRef", token.NoPos, "only %d StringRef calls found", n)
+	}
+}
